@@ -468,7 +468,7 @@ def jobs_for(prop, tier):
 
 def _jobs_for(prop, tier):
     if prop == 'C01':
-        return jobs_c01(tier) + jobs_carry(tier) + jobs_numpy_getitem(tier) + jobs_option_getitem(tier) + jobs_ellipsis(tier) + jobs_missing(tier) + jobs_advanced(tier) + jobs_getitem_entry(tier) + jobs_union_getitem_advanced(tier) + jobs_union_ops(tier) + jobs_regular_getitem_jagged(tier)
+        return jobs_c01(tier) + jobs_carry(tier) + jobs_numpy_getitem(tier) + jobs_option_getitem(tier) + jobs_ellipsis(tier) + jobs_missing(tier) + jobs_advanced(tier) + jobs_getitem_entry(tier) + jobs_union_getitem_advanced(tier) + jobs_union_ops(tier) + jobs_regular_getitem_jagged(tier) + jobs_list_asslice(tier)
     if prop == 'C05':
         return jobs_c05(tier) + [j for j in jobs_option_below(tier) if j[1][3] in ('num', 'localindex')] + jobs_flatten(tier) + jobs_axis0(tier, 'localindex') + jobs_record_below(tier, ('num', 'localindex')) + jobs_axis_through_record(tier, ('num', 'localindex')) + [(h_union_flatten, (), 1800), (h_union_flatten_mixed, (False,), 1800), (h_union_flatten_mixed, (True,), 1800)]
     if prop == 'C09':
@@ -479,7 +479,7 @@ def _jobs_for(prop, tier):
         return [j for j in jobs_option_below(tier) if j[1][3] == 'combinations'] + jobs_combinations(tier) + jobs_axis0(tier, 'combinations') + jobs_record_below(tier, ('combinations',))
     if prop == 'C03':
         return jobs_c03(tier) + jobs_option_reduce(tier) + jobs_axis(tier, ('reduce',)) + jobs_reduce_nonlocal(tier) + jobs_unmasked_passthrough(('reduce_next',)) + jobs_record_reduce(tier)
-    return {'C02': (lambda t: jobs_c02(t) + jobs_numpy_toregular(t) + jobs_regular_getitem_jagged(t)), 'C03': jobs_c03, 'C04': (lambda t: jobs_c04(t) + jobs_numpy_toregular(t)), 'C06': (lambda t: jobs_c06(t) + jobs_axis(t, ('sort', 'argsort')) + jobs_numpy_sort(t) + jobs_sort_nonlocal(t) + jobs_option_sort(t) + jobs_option_sort_above(t) + jobs_option_argsort(t) + jobs_string_argsort(t) + jobs_unmasked_passthrough(('sort_next', 'argsort_next'))), 'C08': (lambda t: jobs_c08(t) + jobs_numpy(t) + jobs_numpy_types(t) + jobs_union(t) + jobs_reverse_merge(t) + jobs_record_merge(t) + jobs_list_merge(t) + [j for j in jobs_record_named(t) if j[0] is h_record_mergemany_named] + jobs_merge_union(t) + jobs_union_ops(t)), 'C17': (lambda t: jobs_c17(t) + jobs_record_keys(t)), 'C12': (lambda t: jobs_numpy(t) + jobs_numpy_astype(t) + [(h_index_alloc, (), 900)] + [(h_axis0, (L_, 'combinations', n_, True), 900) for L_, n_ in ((1, 2), (2, 3), (1, 3), (0, 2))] + [j for j in jobs_numpy_getitem(t) if j[1][3] == 'array']), 'C10': (lambda t: jobs_c10(t) + [j for j in jobs_record_named(t) if j[0] is h_record_field_key] + jobs_project(t) + [j for j in jobs_option_below(t) if j[1][3] in ('getitem_field', 'getitem_fields')] + jobs_record_setitem(t)), 'C05': jobs_c05, 'C09': jobs_c09}.get(prop, lambda t: [])(tier)
+    return {'C02': (lambda t: jobs_c02(t) + jobs_numpy_toregular(t) + jobs_regular_getitem_jagged(t) + jobs_list_asslice(t) + jobs_indexed_widths(t)), 'C03': jobs_c03, 'C04': (lambda t: jobs_c04(t) + jobs_numpy_toregular(t)), 'C06': (lambda t: jobs_c06(t) + jobs_axis(t, ('sort', 'argsort')) + jobs_numpy_sort(t) + jobs_sort_nonlocal(t) + jobs_option_sort(t) + jobs_option_sort_above(t) + jobs_option_argsort(t) + jobs_string_argsort(t) + jobs_unmasked_passthrough(('sort_next', 'argsort_next'))), 'C08': (lambda t: jobs_c08(t) + jobs_numpy(t) + jobs_numpy_types(t) + jobs_union(t) + jobs_reverse_merge(t) + jobs_record_merge(t) + jobs_list_merge(t) + [j for j in jobs_record_named(t) if j[0] is h_record_mergemany_named] + jobs_merge_union(t) + jobs_union_ops(t)), 'C17': (lambda t: jobs_c17(t) + jobs_record_keys(t)), 'C12': (lambda t: jobs_numpy(t) + jobs_numpy_astype(t) + [(h_index_alloc, (), 900)] + [(h_axis0, (L_, 'combinations', n_, True), 900) for L_, n_ in ((1, 2), (2, 3), (1, 3), (0, 2))] + [j for j in jobs_numpy_getitem(t) if j[1][3] == 'array']), 'C10': (lambda t: jobs_c10(t) + [j for j in jobs_record_named(t) if j[0] is h_record_field_key] + jobs_project(t) + [j for j in jobs_option_below(t) if j[1][3] in ('getitem_field', 'getitem_fields')] + jobs_record_setitem(t)), 'C05': jobs_c05, 'C09': jobs_c09}.get(prop, lambda t: [])(tier)
 
 
 # ------------------------------------------------------------------------------------------------ C01: getitem_next of list nodes
@@ -879,6 +879,80 @@ def jobs_regular_getitem_jagged(tier):
     if tier != 'quick':
         q += [(2, 1, 1), (1, 1, 0), (3, 2, 2), (3, 2, 1), (2, 3, 1)]
     return [(h_regular_getitem_jagged, a, 1800) for a in q]
+
+
+@guard
+def h_list_asslice(cls, lens):
+    """ListOffsetArray::asslice - an array of lists of integers used as a slice (x[[[0, 1], [], [2]]]): the slice item is a jagged one whose
+    offsets are the list boundaries counted from the first list's start (zero-based, whatever the origin of the array's own offsets) around
+    what the reachable part of the content - exactly the items between the first start and the last stop - gives as a slice item"""
+    nc = NodeCtx(['LOA', 'LA', 'RA', 'IDX', 'CNT', 'UTL', 'KD', 'IDS', 'SLC'], [], unwind=max(10, 2 * len(lens) + 10))
+    this, lists, starts, offs, short = list_node(nc, cls, lens)
+    seen = []
+
+    def s_asslice(eng, fr, ins, st, name, argv):
+        sret, selfp = argv
+        nm, info = nc.content_info(selfp, st, eng)
+        item = eng.new_record(st.mem, eng.fresh_name('sliceitem'), 16, tag='heap')
+        st.mem.o[item.obj].cells[item.off] = (Ptr('fakevt', 0), 8)
+        seen.append(dict(pc=st.pc, info=info, item=item))
+        nc._ret(st, sret, item)
+        return None
+    nc.m.eng.stubs['vf$slot%d' % nc.slot('7assliceEv')] = s_asslice
+    nc.m.record('ret', {})
+    out = nc.m.call('_ZNK7awkward%s7assliceEv' % short, [Ptr('ret', 0), this])
+    obls = [('asslice does not raise', out.raised), ('the content is asked', z3.Not(z3.Or([ob['pc'] for ob in seen] + [z3.BoolVal(False)])))]
+    total = offs[-1] - offs[0]
+    p = z3.BitVec('p!pos', 64)
+    for ob in seen:
+        g, info = ob['pc'], ob['info']
+        obls.append(('the content asked is the reachable part: last stop - first start items', z3.And(g, info['length'] != total)))
+        obls.append(('item p of the content asked is item first start + p', z3.And(g, p >= 0, p < total, z3.Select(info['atoms'], p) != offs[0] + p)))
+    res = out.mem.o['ret'].cells[0][0]
+    cs = [(g, q) for g, q in nodeh.ptr_cases(res)]
+    for g, q in cs:
+        g = z3.And(g, z3.Not(out.raised))
+        if q.obj is None:
+            obls.append(('a slice item is returned', g))
+            continue
+        o = out.mem.o[q.obj]
+        vp = [qq.obj for gg, qq in nodeh.ptr_cases(o.cells[q.off][0]) if qq.obj is not None]
+        if not (vp and isinstance(vp[0], str) and 'SliceJaggedOfIlE' in vp[0]):
+            obls.append(('the slice item is a jagged one (%s)' % (vp[:1],), g))
+            continue
+        ro, rl = nc.index_terms(out.mem, Ptr(q.obj, q.off + 8), 'jagged offsets')
+        if rl != len(lens) + 1:
+            obls.append(('one offset per list boundary', g))
+        else:
+            for i in range(rl):
+                obls.append(('jagged offset %d is list boundary %d counted from the first start' % (i, i), z3.And(g, ro[i] != offs[i] - offs[0])))
+        cp = o.cells[q.off + 64][0]
+        answered = [z3.And(ob['pc'], gg) for ob in seen for gg, qq in nodeh.ptr_cases(cp) if qq.obj == ob['item'].obj]
+        obls.append(('the jagged item holds what the content answered', z3.And(g, z3.Not(z3.Or(answered + [z3.BoolVal(False)])))))
+
+    def replay(model, ent):
+        lc = model.eval(nc.lencontent, model_completion=True).as_signed_long()
+        if lc > 200:
+            return False, 'content too long to replay', {}
+        head, inp = node_program(nc, model, lc)
+        # the node's content is [0, 1, 2, ...]: use the values modulo 3 as positions inside target lists of 3 items
+        toks = head.split()
+        cnt = int(toks[1])
+        slicer = 'i64 %s ' % fullnative.ints([v % 3 for v in range(cnt)]) + ' '.join(toks[2 + cnt:]) + ' '
+        n = len(inp)
+        target = 'i64 %s listoffset64 %s ' % (fullnative.ints([100 * (k // 3) + k % 3 for k in range(3 * n)]), fullnative.ints([3 * k for k in range(n + 1)]))
+        prog = target + slicer + 'getitem 1 asslice'
+        exp = [[100 * i + v % 3 for v in lst] for i, lst in enumerate(inp)]
+        return akrun_check(prog, exp, '%s %s (items modulo 3) used as a slice of %d lists of 3 items' % (cls, inp, n))
+    return mdischarge(nc.m, '%s::asslice lens=%s' % (cls, list(lens)), obls, [('non-zero offset origin', offs[0] > 0)], replay=replay,
+                      prefer=[nc.lencontent <= 24] + [o_ <= 20 for o_ in offs], extra=dict(bounds='list lengths %s concrete (case split); offsets origin and content length symbolic' % (list(lens),)))
+
+
+def jobs_list_asslice(tier):
+    q = [('ListOffsetArray64', (2, 0, 1)), ('ListOffsetArray64', (1,)), ('ListOffsetArray32', (0, 2))]
+    if tier != 'quick':
+        q += [('ListOffsetArray64', ()), ('ListOffsetArray64', (0, 0)), ('ListOffsetArrayU32', (1, 2)), ('ListOffsetArray64', (3, 1, 2)), ('ListOffsetArray32', (1,))]
+    return [(h_list_asslice, a, 1800) for a in q]
 
 
 def jobs_c01(tier):
@@ -1690,6 +1764,12 @@ def h_indexed_mergemany(specs):
         return akrun_check(prog, exp, 'mergemany of %s' % [(c, ''.join('N' if x else 'v' for x in p)) for c, p in specs])
     return mdischarge(nc.m, 'mergemany %s' % ' + '.join('%s[%s]' % (c, ''.join('N' if x else 'v' for x in p)) for c, p in specs), obls, [], replay=replay,
                       prefer=[c[1] <= 6 for c in contents], extra=dict(bounds='%d operands, missing patterns concrete (case split), index values and content lengths symbolic' % len(specs)))
+
+
+def jobs_indexed_widths(tier):
+    """C02: concatenation does not depend on the index width / option encoding of an operand (each class first and second, next to a plain one)"""
+    A = [('IndexedOptionArray64', (0, 1)), ('IndexedArray64', (0, 0)), ('IndexedOptionArray32', (1, 0, 0)), ('IndexedArray32', (0,)), ('IndexedArrayU32', (0, 0))]
+    return [(h_indexed_mergemany, ((a, A[1]),), 1800) for a in A] + [(h_indexed_mergemany, ((A[1], a),), 1800) for a in A if a != A[1]]
 
 
 def jobs_c08(tier):
